@@ -164,10 +164,15 @@ def write_workbook(path, sheets, options=None):
                     elif kind == "b":
                         status = worksheet.write_boolean(y, x, bool(cell[1]))
                     elif kind == "d":
-                        status = worksheet.write_datetime(
-                            y, x, parse_datetime(cell[1]), formats.get(DATE_FORMATS[cell[2]]))
+                        moment = parse_datetime(cell[1])
+                        if len(cell) > 3:  # optional 4th item: milliseconds past the whole second
+                            moment += datetime.timedelta(milliseconds=cell[3])
+                        status = worksheet.write_datetime(y, x, moment, formats.get(DATE_FORMATS[cell[2]]))
                     elif kind == "t":
-                        status = worksheet.write_datetime(y, x, parse_time(cell[1]), formats.get(TIME_FORMATS[cell[2]]))
+                        moment = parse_time(cell[1])
+                        if len(cell) > 3:
+                            moment = moment.replace(microsecond=1000 * cell[3])
+                        status = worksheet.write_datetime(y, x, moment, formats.get(TIME_FORMATS[cell[2]]))
                     else:
                         num_format = NUMBER_FORMATS[cell[1]] or "0.00"
                         status = worksheet.write_blank(y, x, None, formats.get(num_format))
